@@ -494,8 +494,7 @@ def sdss_specobjid(plate, fiber, mjd, run2d, line=None, index=None):
                 raise ValueError("Could not extract integer run2d value!")
             else:
                 N, M, P = m.groups()
-            run2d = np.array([(int(N) - 5)*10000 + int(M) * 100 + int(P)],
-                             dtype=np.uint64)
+            run2d = np.array([(int(N) - 5)*10000 + int(M) * 100 + int(P)])
     elif isinstance(run2d, int):
         run2d = np.array([run2d])
     if line is None:
